@@ -77,12 +77,15 @@ func getUnifiedDiff(a, b string) (string, int, int) {
 				received := strings.Join(aLines[i1:i2], "")
 
 				if shouldPrintHighlights(expected, received) {
-					diff, i, d := singlelineDiff(received, expected)
-					s.WriteString(diff)
-					inserted += i
-					deleted += d
+					// singlelineDiff is rune based and can't tell apart invalid utf-8 bytes,
+					// in that case fallback to printing both lines
+					if diff, i, d := singlelineDiff(received, expected); diff != "" {
+						s.WriteString(diff)
+						inserted += i
+						deleted += d
 
-					continue
+						continue
+					}
 				}
 
 				fallback = true
@@ -248,5 +251,9 @@ func prettyDiff(expected, received, name string, line int) string {
 	}
 
 	diff, i, d := differ(expected, received)
+	if diff == "" {
+		// the inline (rune based) diff can't see differences in invalid utf-8 bytes
+		diff, i, d = getUnifiedDiff(expected, received)
+	}
 	return buildDiffReport(i, d, diff, name, line)
 }
